@@ -1,6 +1,8 @@
 import Gws.Basic
 import Gws.Generated.Facts
-import Gws.Model.Window
-import Gws.Model.Mask
+import Gws.Props.C12
+import Gws.Props.C16
 import Gws.Props.C17
 import Gws.Props.C18
+import Gws.Lemmas.Close
+import Gws.Model.ReaderRel
